@@ -351,4 +351,10 @@ def run(P, R, tier):
     address_producers(P, R)
     dotted_quad_guard(P, R)
     banner(P, R)
+    from ..report import Remap
+    from . import c07, c12
+    # nothing formatted for one client may be kept for the next: no static buffers on the way to the sender
+    c07.storage_audit(P, Remap(R, {'C07.WMC.2': 'C09.WMC.3'}))
+    # the announced address is stored by the parser: its group move must not scramble it
+    c12.parser_rules(P, Remap(R, {'C12.COPY.1': 'C09.COPY.1', 'C12.MPT.2': 'C09.COPY.1', 'C12.MPT.3': 'C09.COPY.1'}))
     return EXPLANATION, ASSUMPTIONS
